@@ -228,7 +228,7 @@ impl<'a> Evaluator<'a> {
             }
             Answer::Provide(v) => Ok((true, Some(v.clone()))),
             Answer::Fail => Err(Stop::HostFail),
-            Answer::Churn(_, then) | Answer::Compact(then) => self.answer(then),
+            Answer::Churn(_, then) | Answer::Compact(then) | Answer::Reenter(then) => self.answer(then),
             Answer::LieNoPush | Answer::LiePushTwo => abstain("misbehaving host"),
         }
     }
